@@ -22,13 +22,17 @@ EnvLit == /\ budget > 0 /\ ResolveLit(nextH, 81)
           /\ sched' = [a |-> "lit", t |-> now]
 EnvCancel == /\ budget > 0 /\ Cancel /\ budget' = budget - 1
              /\ sched' = [a |-> "cancel", t |-> now] /\ UNCHANGED nextH
+\* destroying the resolver: like cancel() for everything pending (C04: no handler is silently discarded); the
+\* environment carries on with a fresh resolver, which is the same state as after cancel()
+EnvDestroy == /\ budget > 0 /\ Cancel /\ budget' = budget - 1
+              /\ sched' = [a |-> "destroy", t |-> now] /\ UNCHANGED nextH
 Complete == /\ \E h \in 1..(nextH - 1) : DoneHost(h) \/ DoneLit(h) \/ DoneAborted(h)
             /\ sched' = [a |-> "done"] /\ UNCHANGED <<nextH, budget>>
 DueTimes == (IF Hosts # <<>> THEN {Due(Head(Hosts))} ELSE {})
             \cup {pending[i].req + Slack : i \in {j \in 1..Len(pending) : pending[j].kind = "lit"}}
 Tick(t) == /\ Advance(t) /\ sched' = [a |-> "adv", t |-> t] /\ UNCHANGED <<nextH, budget>>
 MCNext == \/ \E n \in Names : EnvHost(n)
-          \/ EnvLit \/ EnvCancel \/ Complete
+          \/ EnvLit \/ EnvCancel \/ EnvDestroy \/ Complete
           \/ \E g \in Gaps : budget > 0 /\ now + g <= Horizon /\ Tick(now + g)
           \/ \E t \in DueTimes : Tick(t)
 MCSpec == MCInit /\ [][MCNext]_mvars
